@@ -264,6 +264,11 @@ func (e *Engine) derivedFn(kind, key string, arity int) string {
 	e.derived[k] = n
 	args := strings.TrimSpace(strings.Repeat("Int ", arity))
 	decl := fmt.Sprintf("(declare-fun %s (%s) Int)", n, args)
+	// derived addresses (of a struct element of a slice, of an inner struct field) are injective and live below
+	// zero, apart from every allocated reference. Address instructions assume that for the address they
+	// compute; contracts read s[i].f and x.inner.f without executing one, so the instance generator adds the
+	// same facts for every ground application in a goal and its instances (derivedAddressFacts). No
+	// quantified axiom: it would turn every `sat` into `unknown`.
 	if kind == "ea" {
 		decl += fmt.Sprintf("\n(declare-fun %s!base (Int) Int)\n(declare-fun %s!idx (Int) Int)", n, n)
 	}
